@@ -25,6 +25,8 @@ import Wbxml.Lemmas.AllocInit
 import Wbxml.Lemmas.AllocEncTree
 import Wbxml.Lemmas.AllocTreeD
 import Wbxml.Lemmas.AllocPipe
+import Wbxml.Lemmas.AllocPipeXml
+import Wbxml.Lemmas.AllocTreeXmlB
 import Wbxml.Model.AllocOld
 namespace Wbxml.Props.C16
 open Wbxml Wbxml.Model.Alloc
@@ -582,7 +584,7 @@ theorem tree_benign_false (texts : List ABuf) (t : Ledger) (k : Nat) : ¬ TreeBe
     This half keeps the name because the other producers / consumers of a tree (Expat call-backs,
     XML printer) are covered by the enumeration of `tools/props/c16.py` only, which is a TEST and
     labelled so in the evidence. -/
-theorem oom_result_sound_partial (useStrtbl : Bool) (texts : List ABuf) (body : List Bytes) (version publicId : Nat)
+theorem oom_result_sound_tree_to_wbxml (useStrtbl : Bool) (texts : List ABuf) (body : List Bytes) (version publicId : Nat)
     (s : Ledger) (wf : s.WF) (htx : ∀ t ∈ texts, t.hdr ∈ s.live) :
     OomResultSoundUpTo (treeToWbxml useStrtbl texts body version publicId) s (TreeBenign useStrtbl texts) := by
   intro k
@@ -616,7 +618,7 @@ theorem oom_result_sound_partial (useStrtbl : Bool) (texts : List ABuf) (body : 
 /-- Without string table: the strict clause. -/
 theorem oom_result_sound_no_strtbl (body : List Bytes) (version publicId : Nat) (s : Ledger) (wf : s.WF) :
     OomResultSound (treeToWbxml false [] body version publicId) s :=
-  (oom_result_sound_partial false [] body version publicId s wf (fun t ht => by cases ht)).strict
+  (oom_result_sound_tree_to_wbxml false [] body version publicId s wf (fun t ht => by cases ht)).strict
     (fun t k => tree_benign_false [] t k)
 
 /-! ### With the string table the strict clause does not hold — and is not meant to -/
@@ -647,7 +649,7 @@ theorem strtbl_benign_failure_changes_output :
       (some [3, 10, 106, 5, 97, 98, 99, 100, 0, 69]) = true := by decide
 
 /-- Hence the strict `OomResultSound` is false with the string table: the statement that holds is
-    `oom_result_sound_partial` (`OomResultSoundUpTo … TreeBenign`). -/
+    `oom_result_sound_tree_to_wbxml` (`OomResultSoundUpTo … TreeBenign`). -/
 theorem oom_result_sound_strict_fails_with_strtbl :
     ¬ OomResultSound (treeToWbxml true benignTexts [[0x45]] 3 10) benignStart := by
   intro h
@@ -657,7 +659,7 @@ theorem oom_result_sound_strict_fails_with_strtbl :
   · have := (resultIs_ok (congrArg Prod.fst hrun) a).2.symm.trans (resultIs_ok h2.1 b).2
     simp at this
 
-/-- The hypotheses of `strtbl_initialize_clean` / `oom_result_sound_partial` are satisfiable (the
+/-- The hypotheses of `strtbl_initialize_clean` / `oom_result_sound_tree_to_wbxml` are satisfiable (the
     scenario above). -/
 example : benignStart.WF ∧ (∀ t ∈ benignTexts, t.hdr ∈ benignStart.live) := by
   refine ⟨fun i hi => ?_, fun t ht => ?_⟩
@@ -960,6 +962,360 @@ theorem oom_result_sound_wbxml2wbxml_no_strtbl (d : Doc) (hd : d.wf) (texts : TC
     OomResultSound (wbxml2wbxml d false texts body version publicId) s :=
   (oom_result_sound_wbxml2wbxml d hd false texts htexts body version publicId s wf).strict
     (fun t k => pipe_benign_false d texts t k)
+
+/-! ## The XML output half: `wbxml_tree_to_xml` (`Model/AllocXml.lean`) -/
+
+/-- From a specification that holds in every well-formed ledger to the strict clause of the
+    property for a conversion: an error comes without output and with nothing left; a run that was
+    delivered no failure is the un-failed run. -/
+theorem oom_sound_of_spec {conv : Prog (Nat × Option (Nat × Bytes))} {s : Ledger}
+    (spec : ∀ s' : Ledger, s'.live = s.live → s'.next = s.next →
+      Good conv s' (fun r t => Clean s' t [] (ownedResult r.2) ∧ (r.1 ≠ OK → r.2 = none) ∧ (s'.hits < t.hits → r.1 ≠ OK))) :
+    OomResultSound conv s := by
+  intro k
+  obtain ⟨r, t, hrun, hc, hnone, hrep⟩ := (spec { s with sched := failAt k } rfl rfl).elim
+  refine ⟨r, t, hrun, ?_⟩
+  have hlive : ∀ i, i ∈ t.live ↔ i ∈ s.live ∨ i ∈ ownedResult r.2 := fun i => by have := hc.live i; simpa using this
+  by_cases hret : r.1 = OK
+  · refine Or.inr ⟨?_, hlive⟩
+    have hle := hc.hits
+    have heq : (run conv { s with sched := failAt k }).2.hits = ({ s with sched := failAt k } : Ledger).hits := by
+      rw [hrun]
+      by_cases hh : ({ s with sched := failAt k } : Ledger).hits < t.hits
+      · exact absurd hret (hrep hh)
+      · simp at hle hh ⊢; omega
+    have := run_nohit _ { s with sched := failAt k } heq
+    rw [hrun] at this
+    simpa using congrArg Prod.fst this
+  · have hn := hnone hret
+    refine Or.inl ⟨hret, hn, fun i => ?_⟩
+    have := hlive i
+    rw [hn] at this
+    simpa [ownedResult] using this
+
+theorem ready_of_eq {e : AEnc} {s s' : Ledger} (rdy : EncReady e s) (hl : s'.live = s.live) : EncReady e s' :=
+  ⟨owns_of_eq rdy.1 hl, rdy.2⟩
+
+/-- A run of `wbxml_buffer_append_*` calls on `encoder->output` (every piece of the document is
+    written by one): the encoder stays the caller's, the output block may move, a failure is the
+    error code of the call site. -/
+theorem xml_appends_clean (e : AEnc) (err : Nat) (herr : err ≠ OK) (chunks : List Bytes) (s : Ledger) (wf : s.WF)
+    (rdy : EncReady e s) :
+    AnyScheduleClean (appendAll e err chunks) (fun r => r.2 != OK) s e.owned (fun r => r.1.owned) :=
+  clean_of_spec fun s' hl hn => (appendAll_spec e err herr chunks s' (wf_of_eq wf hl hn) (ready_of_eq rdy hl)).mono
+    fun r t x => ⟨x.clean, fun hh => by simpa using x.2.2.2 hh⟩
+
+/-- `xml_encode_attr`: the temporary copy of the value never outlives the call. -/
+theorem xml_attr_clean (g : XGen) (e : AEnc) (name value : Bytes) (s : Ledger) (wf : s.WF) (rdy : EncReady e s) :
+    AnyScheduleClean (xmlAttr g e name value) (fun r => r.2 != OK) s e.owned (fun r => r.1.owned) :=
+  clean_of_spec fun s' hl hn => (xmlAttr_spec g e name value s' (wf_of_eq wf hl hn) (ready_of_eq rdy hl)).mono
+    fun r t x => ⟨x.clean, fun hh => by simpa using x.2.2.2 hh⟩
+
+/-- `wbxml_buffer_encode_base64` on the temporary copy of a binary element's text. -/
+theorem buffer_encode_base64_clean (tmp : ABuf) (s : Ledger) (wf : s.WF) (own : Owns s tmp.owned) (hok : tmp.ok)
+    (hst : tmp.isStatic = false) :
+    AnyScheduleClean (bufEncodeB64 tmp) (fun r => r.2 != OK) s tmp.owned (fun r => r.1.owned) :=
+  clean_of_spec fun s' hl hn => (bufEncodeB64_spec tmp s' (wf_of_eq wf hl hn) (owns_of_eq own hl) hok hst).mono
+    fun r t ⟨c, _, _, h⟩ => ⟨c, fun hh => by simpa using h hh⟩
+
+/-- `parse_text` + `xml_encode_text` (copy, SyncML replacement, base64 rewrite, entities, CDATA text). -/
+theorem xml_text_clean (g : XGen) (l : XLang) (e : AEnc) (st : XSt) (content : ABuf) (s : Ledger) (wf : s.WF)
+    (rdy : EncReady e s) (hc : content.hdr ∈ s.live) :
+    AnyScheduleClean (xmlText g l e st content) (fun r => r.2.2 != OK) s e.owned (fun r => r.1.owned) :=
+  clean_of_spec fun s' hl hn =>
+    (xmlText_spec g l e st content s' (wf_of_eq wf hl hn) (ready_of_eq rdy hl) (by rw [hl]; exact hc)).mono
+      fun r t x => ⟨x.clean, fun hh => by simpa using x.2.2.2 hh⟩
+
+/-- `xml_build_result` with `xml_fill_header`: only the result block is produced, with `WBXML_OK` only. -/
+theorem xml_build_result_clean (g : XGen) (l : XLang) (e : AEnc) (withHeader : Bool) (s : Ledger) (wf : s.WF)
+    (hl : e.hdr ∈ s.live) (hout : ∀ o, e.output = some o → o.hdr ∈ s.live ∧ o.ok) :
+    AnyScheduleClean (xmlBuildResult g l e withHeader) (fun r => r.1 != OK) s [] (fun r => ownedResult r.2) :=
+  clean_of_spec fun s' hl' hn =>
+    (xmlBuildResult_spec g l e withHeader s' (wf_of_eq wf hl' hn) (by rw [hl']; exact hl)
+      (fun o ho => by rw [hl']; exact hout o ho)).mono
+      fun r t ⟨c, _, h⟩ => ⟨c, fun hh => by simpa using h hh⟩
+
+/-- The node walk (`parse_node` in XML mode) for EVERY tree — elements with attributes, text, CDATA
+    sections, embedded trees with their second encoder, nodes the printer refuses — from any state of
+    the walk and under EVERY schedule (structural induction over the tree): no fault; the encoder
+    stays the caller's; every temporary is gone; a failed request is an error code. -/
+theorem xml_node_clean (g : XGen) (l : XLang) (n : XNode) (e : AEnc) (st : XSt) (s : Ledger) (wf : s.WF) (rdy : EncReady e s)
+    (hb : ∀ t ∈ n.bufs, t.hdr ∈ s.live ∧ t.hdr ∉ e.owned) :
+    AnyScheduleClean (xmlNode g l e st n) (fun r => r.2.2 != OK) s e.owned (fun r => r.1.owned) :=
+  clean_of_spec fun s' hl hn =>
+    (xmlNode_spec g n l e st s' (wf_of_eq wf hl hn) (ready_of_eq rdy hl) (fun t ht => by rw [hl]; exact hb t ht)).mono
+      fun r t x => ⟨x.clean, fun hh => by simpa using x.2.2.2 hh⟩
+
+/-- `tree_to_xml_clean`: the whole of `wbxml_tree_to_xml` for every tree whose text buffers are live,
+    every generation type / indentation / language shape and EVERY schedule: no fault; an error code
+    with NOTHING left allocated, or `WBXML_OK` with the result block as the only thing left; an error
+    whenever a request failed.  Benign sites of the XML output half: none. -/
+theorem tree_to_xml_clean (g : XGen) (l : XLang) (root : XNode) (s : Ledger) (wf : s.WF)
+    (hb : ∀ t ∈ root.bufs, t.hdr ∈ s.live) :
+    AnyScheduleClean (treeToXml g l root) (fun r => r.1 != OK) s [] (fun r => ownedResult r.2) :=
+  clean_of_spec fun s' hl hn =>
+    (treeToXml_spec g l root s' (wf_of_eq wf hl hn) (fun t ht => by rw [hl]; exact hb t ht)).mono
+      fun r t ⟨c, _, h⟩ => ⟨c, fun hh => by simpa using h hh⟩
+
+/-- … and an error never comes with a result. -/
+theorem tree_to_xml_result (g : XGen) (l : XLang) (root : XNode) (s : Ledger) (wf : s.WF)
+    (hb : ∀ t ∈ root.bufs, t.hdr ∈ s.live) :
+    Good (treeToXml g l root) s (fun r _ => r.1 ≠ OK → r.2 = none) :=
+  (treeToXml_spec g l root s wf hb).mono fun r t ⟨_, a, _⟩ => a
+
+/-- The strict clause for `wbxml_tree_to_xml` on its own. -/
+theorem oom_result_sound_tree_to_xml (g : XGen) (l : XLang) (root : XNode) (s : Ledger) (wf : s.WF)
+    (hb : ∀ t ∈ root.bufs, t.hdr ∈ s.live) :
+    OomResultSound (treeToXml g l root) s :=
+  oom_sound_of_spec fun s' hl hn => treeToXml_spec g l root s' (wf_of_eq wf hl hn) (fun t ht => by rw [hl]; exact hb t ht)
+
+/-- A sample: `<a id="x&quot;">T<![CDATA[]]]]><![CDATA[>]]></a>` in indent mode — text buffers are the blocks
+    1 … 4 of the tree — un-failed (the XML text), and with request 13 − 4 = the 9th of the call (a `realloc` of the output buffer
+    while the attribute value is written: the temporary copy is live) failing: error 90, nothing but
+    the tree left (kernel-evaluated). -/
+def sampleXLang : XLang := ⟨true, false, false, b!"r", b!"P", b!"d"⟩
+def sampleXTree : XNode :=
+  .elt b!"a" none false false [⟨some b!"id", b!"x\""⟩] [.text ⟨1, some 2, b!"T", 2, false⟩, .cdata [.text ⟨3, some 4, b!"]]>", 4, false⟩]]
+def sampleXStart : Ledger := { next := 4, live := [1, 2, 3, 4] }
+
+example : sampleXStart.WF ∧ ∀ t ∈ sampleXTree.bufs, t.hdr ∈ sampleXStart.live := by
+  refine ⟨fun i hi => ?_, fun t ht => ?_⟩
+  · simp [sampleXStart] at hi ⊢; omega
+  · simp [sampleXTree, XNode.bufs, XNode.bufsL] at ht; rcases ht with rfl | rfl <;> simp [sampleXStart]
+
+set_option maxRecDepth 20000 in
+theorem sample_xml_unfailed_and_failed :
+    resultIs (run (treeToXml ⟨1, 1, true, true⟩ sampleXLang sampleXTree) sampleXStart) OK
+      (some b!"<?xml version=\"1.0\"?>\n<!DOCTYPE r PUBLIC \"P\" \"d\">\n<a id=\"x&quot;\">T<![CDATA[]]]]><![CDATA[>]]></a>\n") = true ∧
+    resultIs (run (treeToXml ⟨1, 1, true, true⟩ sampleXLang sampleXTree) { sampleXStart with sched := failAt 13 }) EAPPEND none = true ∧
+    (run (treeToXml ⟨1, 1, true, true⟩ sampleXLang sampleXTree) { sampleXStart with sched := failAt 13 }).2.live = [1, 2, 3, 4] := by
+  decide
+
+/-! ## A whole conversion: WBXML → tree → XML -/
+
+/-- `wbxml_tree_from_wbxml` ∘ `wbxml_tree_to_xml` ∘ `wbxml_tree_destroy` under ANY schedule, for every
+    well-formed document shape and whatever the printer reads off the tree (`xtree`, its text buffers
+    being the tree's): no fault; an error code with nothing left allocated, or `WBXML_OK` with only the
+    result left; an error whenever a request failed. -/
+theorem wbxml2xml_clean (d : Doc) (hd : d.wf) (g : XGen) (l : XLang) (xtree : TCtx → XNode)
+    (hx : ∀ c, ∀ t ∈ (xtree c).bufs, t.hdr ∈ c.owned) (s : Ledger) (wf : s.WF) :
+    AnyScheduleClean (wbxml2xml d g l xtree) (fun r => r.1 != OK) s [] (fun r => ownedResult r.2) :=
+  clean_of_spec fun s' hl hn => (wbxml2xml_spec d hd g l xtree hx s' (wf_of_eq wf hl hn)).mono
+    fun r t ⟨c, _, h⟩ => ⟨c, fun hh => by simpa using h hh⟩
+
+/-- `oom_result_sound` for the WBXML → tree → XML conversion, strict: parser main loop, tree-building
+    call-backs, glue, XML printer with all its temporaries, result — for every well-formed document
+    shape and EVERY k: the run ends without fault; the status is an error with no output and nothing
+    left allocated, or the conversion returns exactly what it returns without failure and only that
+    output is left.  Neither half has a benign request. -/
+theorem oom_result_sound_wbxml2xml (d : Doc) (hd : d.wf) (g : XGen) (l : XLang) (xtree : TCtx → XNode)
+    (hx : ∀ c, ∀ t ∈ (xtree c).bufs, t.hdr ∈ c.owned) (s : Ledger) (wf : s.WF) :
+    OomResultSound (wbxml2xml d g l xtree) s :=
+  oom_sound_of_spec fun s' hl hn => wbxml2xml_spec d hd g l xtree hx s' (wf_of_eq wf hl hn)
+
+/-! ## The Expat call-backs: `wbxml_tree_from_xml` (`Model/AllocTreeXml.lean`) -/
+
+/-- `wbxml_tree_add_xml_elt_with_attrs` (tag, node, link into the tree, attribute list with the
+    `"xml:"` name buffer, names, values, list cells; removal of the half-built node on failure). -/
+theorem tree_add_xml_elt_with_attrs_clean (c : TCtx) (tag : XName) (attrs : List XAttrIn) (s : Ledger) (wf : s.WF) (hok : c.ok)
+    (own : Owns s c.owned) :
+    AnyScheduleClean (treeAddXmlEltWithAttrs c tag attrs) (fun r => !r.2) s c.owned (fun r => r.1.owned) :=
+  clean_of_spec fun s' hl hn =>
+    (treeAddXmlEltWithAttrs_spec c tag attrs s' (wf_of_eq wf hl hn) hok (owns_of_eq own hl)).mono
+      fun r t ⟨_, _, _, cl, h⟩ => ⟨cl, fun hh => by rw [h hh]; rfl⟩
+
+/-- `wbxml_buffer_decode_base64` on the cached text of a binary element (the result block of
+    `wbxml_base64_decode` is released on every exit, also when nothing could be decoded). -/
+theorem buffer_decode_base64_clean (b : ABuf) (s : Ledger) (wf : s.WF) (own : Owns s b.owned) (hok : b.ok) :
+    AnyScheduleClean (bufDecodeB64 b) (fun r => r.2 != OK) s b.owned (fun r => r.1.owned) :=
+  clean_of_spec fun s' hl hn => (bufDecodeB64_spec b s' (wf_of_eq wf hl hn) (owns_of_eq own hl) hok).mono
+    fun r t ⟨c, _, h⟩ => ⟨c, fun hh => by simpa using h hh⟩
+
+/-- One call-back of `wbxml_tree_clb_xml.c` — start element (with attributes), end element (with
+    the base64 decoding of a binary element's cache), start / end of a CDATA section, characters
+    (LF → CRLF, missing CDATA section, cache of a binary element, text node) — from any consistent
+    context: the context keeps owning exactly its blocks; a failed request leaves an error code. -/
+theorem tree_clb_xml_event_clean (binRow : Nat → Bool) (c : TCtx) (e : XEvent) (s : Ledger) (wf : s.WF) (hok : c.ok)
+    (own : Owns s c.owned) :
+    AnyScheduleClean (clbXmlEvent binRow c e) (fun c' => c'.error != OK) s c.owned TCtx.owned :=
+  clean_of_spec fun s' hl hn => (clbXmlEvent_spec binRow c e s' (wf_of_eq wf hl hn) hok (owns_of_eq own hl)).mono
+    fun c' t ⟨_, _, cl, h, _⟩ => ⟨cl, fun hh => by simpa using h hh⟩
+
+/-- … and any list of them (induction on the list). -/
+theorem tree_clb_xml_events_clean (binRow : Nat → Bool) (events : List XEvent) (c : TCtx) (s : Ledger) (wf : s.WF) (hok : c.ok)
+    (own : Owns s c.owned) :
+    AnyScheduleClean (clbXmlEvents binRow c events) (fun c' => c'.error != OK) s c.owned TCtx.owned :=
+  clean_of_spec fun s' hl hn => (clbXmlEvents_spec binRow events c s' (wf_of_eq wf hl hn) hok (owns_of_eq own hl)).mono
+    fun c' t ⟨_, _, cl, h, _⟩ => ⟨cl, fun hh => by simpa using h hh⟩
+
+/-- `tree_from_xml_events_clean`: `wbxml_tree_from_xml` around the call-backs Expat makes
+    (`wbxml_tree_create`, the events, `wbxml_tree_destroy` when Expat or a call-back reported an
+    error), for EVERY list of events, every table of binary tags, either outcome of `XML_Parse` and
+    every schedule: no fault; an error code with nothing left allocated, or `WBXML_OK` with the tree
+    owning everything that is left; an error whenever a request failed.  Benign sites: none. -/
+theorem tree_from_xml_events_clean (binRow : Nat → Bool) (events : List XEvent) (parseOk : Bool) (s : Ledger) (wf : s.WF) :
+    AnyScheduleClean (treeFromXml binRow events parseOk) (fun r => r.1 != OK) s [] (fun r => ownedCtxOpt r.2) :=
+  clean_of_spec fun s' hl hn => (treeFromXml_spec binRow events parseOk s' (wf_of_eq wf hl hn)).mono
+    fun r t ⟨cl, _, h, _⟩ => ⟨cl, fun hh => by simpa using h hh⟩
+
+/-- … an error never comes with a tree, and a tree that is returned is consistent and error-free. -/
+theorem tree_from_xml_events_result (binRow : Nat → Bool) (events : List XEvent) (parseOk : Bool) (s : Ledger) (wf : s.WF) :
+    Good (treeFromXml binRow events parseOk) s (fun r _ => (r.1 ≠ OK → r.2 = none) ∧ ∀ c, r.2 = some c → c.ok ∧ c.error = OK) :=
+  (treeFromXml_spec binRow events parseOk s wf).mono fun r t ⟨_, a, _, b⟩ => ⟨a, b⟩
+
+theorem single_failure_clean_tree_from_xml (binRow : Nat → Bool) (events : List XEvent) (parseOk : Bool) (s : Ledger) (wf : s.WF) :
+    SingleFailureClean (treeFromXml binRow events parseOk) (fun r => r.1 != OK) s [] (fun r => ownedCtxOpt r.2) :=
+  (tree_from_xml_events_clean binRow events parseOk s wf).single
+
+/-- A sample: `<T0 xml:lang="en" a="v"><T1>QUJD\nRA==</T1>x</T0>` with `T1` a binary tag — un-failed: a tree
+    of 24 blocks whose binary element holds the decoded text; with request 25 (the result block of
+    `wbxml_base64_decode`) failing: `WBXML_ERROR_B64_DEC`, nothing left; and when Expat reports a parse error
+    after these events: `WBXML_ERROR_XML_PARSING_FAILED`, nothing left (kernel-evaluated). -/
+def sampleXEvents : List XEvent :=
+  [.start true (.token 0) [⟨some b!"lang", .token 0, b!"en"⟩, ⟨none, .literal b!"a", b!"v"⟩],
+   .start true (.token 1) [], .chars b!"QUJD" .normal, .chars b!"\n" .normal, .chars b!"RA==" .normal, .stop,
+   .chars b!"x" .normal, .stop]
+
+set_option maxRecDepth 20000 in
+theorem sample_from_xml_unfailed_and_failed :
+    fromWbxmlIs (run (treeFromXml (· == 1) sampleXEvents true) (Ledger.start [])) OK true 24 = true ∧
+    fromWbxmlIs (run (treeFromXml (· == 1) sampleXEvents true) (Ledger.start (failAt 25))) EB64DEC false 0 = true ∧
+    fromWbxmlIs (run (treeFromXml (· == 1) sampleXEvents false) (Ledger.start [])) EXMLPARSE false 0 = true := by
+  decide
+
+/-! ## Whole conversions from XML: XML → tree → WBXML, XML → tree → XML -/
+
+/-- From a specification with the list of reported requests to the clause up to benign requests. -/
+theorem oom_upto_of_spec {conv : Prog (Nat × Option (Nat × Bytes))} {s : Ledger} {benign : Ledger → Nat → Prop}
+    (spec : ∀ k : Nat, Good conv { s with sched := failAt k } (fun r t =>
+      Clean { s with sched := failAt k } t [] (ownedResult r.2) ∧ (r.1 ≠ OK → r.2 = none) ∧
+      (∀ k', ({ s with sched := failAt k } : Ledger).fails k' = true → s.next < k' → k' ≤ t.next →
+        ¬ benign { s with sched := failAt k } k' → r.1 ≠ OK))) :
+    OomResultSoundUpTo conv s benign := by
+  intro k
+  obtain ⟨r, t, hrun, hc, hnone, hrep⟩ := (spec k).elim
+  refine ⟨r, t, hrun, ?_⟩
+  have hlive : ∀ i, i ∈ t.live ↔ i ∈ s.live ∨ i ∈ ownedResult r.2 := fun i => by have := hc.live i; simpa using this
+  by_cases hret : r.1 = OK
+  · by_cases hh : ({ s with sched := failAt k } : Ledger).hits < t.hits
+    · obtain ⟨k', hf, a, b⟩ := fail_of_hits hrun hh
+      have hk : k' = k := by simpa [Ledger.fails, failAt] using hf
+      subst hk
+      refine Or.inr (Or.inr ⟨?_, hret, hlive⟩)
+      apply Classical.byContradiction
+      intro hnb
+      exact hrep k' hf a b hnb hret
+    · refine Or.inr (Or.inl ⟨?_, hlive⟩)
+      have hle := hc.hits
+      have heq : (run conv { s with sched := failAt k }).2.hits = ({ s with sched := failAt k } : Ledger).hits := by
+        rw [hrun]; simp at hle hh ⊢; omega
+      have := run_nohit _ { s with sched := failAt k } heq
+      rw [hrun] at this
+      simpa using congrArg Prod.fst this
+  · have hn := hnone hret
+    refine Or.inl ⟨hret, hn, fun i => ?_⟩
+    have := hlive i
+    rw [hn] at this
+    simpa [ownedResult] using this
+
+/-- `wbxml_tree_from_xml` ∘ `wbxml_tree_to_wbxml` ∘ `wbxml_tree_destroy` under ANY schedule: no fault, no
+    result with an error code, nothing but the result stays allocated, and a failed request that is
+    not one of the encoder's benign string-table requests (`XPipeBenign`) yields an error code. -/
+theorem xml2wbxml_no_leak (binRow : Nat → Bool) (events : List XEvent) (parseOk : Bool) (useStrtbl : Bool)
+    (texts : TCtx → List ABuf) (htexts : ∀ c, ∀ t ∈ texts c, t.hdr ∈ c.owned) (body : TCtx → List Bytes) (version publicId : Nat)
+    (s : Ledger) (wf : s.WF) :
+    ∀ sched : List Nat, ∃ r s', run (xml2wbxml binRow events parseOk useStrtbl texts body version publicId) { s with sched := sched } = (.ok r, s') ∧
+      (r.1 ≠ OK → r.2 = none) ∧ (∀ i, i ∈ s'.live ↔ i ∈ s.live ∨ i ∈ ownedResult r.2) ∧
+      (∀ k ∈ sched, s.next < k → k ≤ s'.next → ¬ XPipeBenign binRow events parseOk useStrtbl texts { s with sched := sched } k → r.1 ≠ OK) := by
+  intro sched
+  obtain ⟨r, t, hrun, hc, hnone, _, hrep⟩ :=
+    (xml2wbxml_spec binRow events parseOk useStrtbl texts htexts body version publicId { s with sched := sched } (wf_of_eq wf rfl rfl)).elim
+  exact ⟨r, t, hrun, hnone, fun i => by have := hc.live i; simpa using this,
+    fun k hk a b hnb => hrep k ((fails_iff_mem _ k).2 hk) a b hnb⟩
+
+theorem xpipe_benign_false (binRow : Nat → Bool) (events : List XEvent) (parseOk : Bool) (texts : TCtx → List ABuf) (t : Ledger) (k : Nat) :
+    ¬ XPipeBenign binRow events parseOk false texts t k := by
+  rintro ⟨c, s1, _, hb⟩
+  exact tree_benign_false (texts c) s1 k hb
+
+/-- `oom_result_sound` for the XML → tree → WBXML conversion: the Expat call-backs and the glue of
+    `wbxml_tree_from_xml` for EVERY event list, composed with the encoder half, for EVERY k; with the
+    string table up to the encoder's benign requests (`XPipeBenign` = `TreeBenign` after the first half). -/
+theorem oom_result_sound_xml2wbxml (binRow : Nat → Bool) (events : List XEvent) (parseOk : Bool) (useStrtbl : Bool)
+    (texts : TCtx → List ABuf) (htexts : ∀ c, ∀ t ∈ texts c, t.hdr ∈ c.owned) (body : TCtx → List Bytes) (version publicId : Nat)
+    (s : Ledger) (wf : s.WF) :
+    OomResultSoundUpTo (xml2wbxml binRow events parseOk useStrtbl texts body version publicId) s
+      (XPipeBenign binRow events parseOk useStrtbl texts) :=
+  oom_upto_of_spec fun k =>
+    (xml2wbxml_spec binRow events parseOk useStrtbl texts htexts body version publicId { s with sched := failAt k } (wf_of_eq wf rfl rfl)).mono
+      fun r t ⟨c, n, _, rep⟩ => ⟨c, n, rep⟩
+
+/-- Without string table: the strict clause. -/
+theorem oom_result_sound_xml2wbxml_no_strtbl (binRow : Nat → Bool) (events : List XEvent) (parseOk : Bool)
+    (texts : TCtx → List ABuf) (htexts : ∀ c, ∀ t ∈ texts c, t.hdr ∈ c.owned) (body : TCtx → List Bytes) (version publicId : Nat)
+    (s : Ledger) (wf : s.WF) :
+    OomResultSound (xml2wbxml binRow events parseOk false texts body version publicId) s :=
+  (oom_result_sound_xml2wbxml binRow events parseOk false texts htexts body version publicId s wf).strict
+    (fun t k => xpipe_benign_false binRow events parseOk texts t k)
+
+/-- XML → tree → XML, strict: neither the call-backs nor the printer have a benign request. -/
+theorem oom_result_sound_xml2xml (binRow : Nat → Bool) (events : List XEvent) (parseOk : Bool) (g : XGen) (l : XLang)
+    (xtree : TCtx → XNode) (hx : ∀ c, ∀ t ∈ (xtree c).bufs, t.hdr ∈ c.owned) (s : Ledger) (wf : s.WF) :
+    OomResultSound (xml2xml binRow events parseOk g l xtree) s :=
+  oom_sound_of_spec fun s' hl hn => xml2xml_spec binRow events parseOk g l xtree hx s' (wf_of_eq wf hl hn)
+
+/-! ## `oom_result_sound`: the four public conversions in one statement -/
+
+/-- The clause of the property for the four conversions an application can run — WBXML → XML,
+    XML → WBXML, and the two round trips through the tree (WBXML → WBXML, XML → XML) — each as
+    `from` ∘ `to` ∘ `wbxml_tree_destroy` on the ledger, for EVERY well-formed WBXML document shape /
+    EVERY list of Expat call-backs, every option set of the printers and encoders, EVERY k: the run
+    ends without fault (no double free, no use after free, no NULL dereference); the status is an
+    error with no output and nothing left allocated, or the conversion returns exactly what it returns
+    without failure and only that output is left.  The two conversions that end in the WBXML encoder
+    hold up to its benign string-table requests (`PipeBenign` / `XPipeBenign`; strict without string
+    table: `oom_result_sound_wbxml2wbxml_no_strtbl`, `oom_result_sound_xml2wbxml_no_strtbl`); the two
+    that end in the XML printer are strict.
+
+    It keeps the suffix `_partial` because the following allocate and are in NO model (they are
+    covered by the conversion-level enumeration only, a TEST):
+      * the body of the WBXML encoder — `wbxml_encode_value_element_buffer` with its value-element
+        lists and buffers, the typed encoders (WV, date-time, OTA icon, DRMREL), the CDATA buffer of
+        `parse_cdata`, and `parse_text`'s in-place `wbxml_buffer_insert_cstr(node->content, "\r", 0)`,
+        whose result is ignored (finding `insert-cr-unchecked`): the model takes the body as the chunks
+        that are appended (`body`);
+      * the Wireless-Village / date-time decoders and the WV extension values of the WBXML parser;
+      * an embedded document: `WBXML_SYNCML_DATA_TYPE_WBXML` inside the WBXML `characters` call-back
+        (nested `wbxml_tree_from_wbxml`; the known finding `check-public-id-oom-embedded` lives there)
+        and the `DevInf` / `MgmtTree` element of the XML call-backs (nested `wbxml_tree_from_xml`,
+        with the skip-level counter);
+      * Expat itself (libc `malloc`: neither failed nor on the ledger) and the converter objects
+        (`wbxml_conv_*_create`: one block, released by `wbxml_conv_*_destroy`). -/
+theorem oom_result_sound_partial
+    (d : Doc) (hd : d.wf) (binRow : Nat → Bool) (events : List XEvent) (parseOk : Bool)
+    (g : XGen) (l : XLang) (xtree : TCtx → XNode) (hx : ∀ c, ∀ t ∈ (xtree c).bufs, t.hdr ∈ c.owned)
+    (useStrtbl : Bool) (texts : TCtx → List ABuf) (htexts : ∀ c, ∀ t ∈ texts c, t.hdr ∈ c.owned)
+    (body : TCtx → List Bytes) (version publicId : Nat) (s : Ledger) (wf : s.WF) :
+    OomResultSound (wbxml2xml d g l xtree) s ∧
+    OomResultSoundUpTo (xml2wbxml binRow events parseOk useStrtbl texts body version publicId) s
+      (XPipeBenign binRow events parseOk useStrtbl texts) ∧
+    OomResultSoundUpTo (wbxml2wbxml d useStrtbl texts body version publicId) s (PipeBenign d useStrtbl texts) ∧
+    OomResultSound (xml2xml binRow events parseOk g l xtree) s :=
+  ⟨oom_result_sound_wbxml2xml d hd g l xtree hx s wf,
+   oom_result_sound_xml2wbxml binRow events parseOk useStrtbl texts htexts body version publicId s wf,
+   oom_result_sound_wbxml2wbxml d hd useStrtbl texts htexts body version publicId s wf,
+   oom_result_sound_xml2xml binRow events parseOk g l xtree hx s wf⟩
+
+/-- The hypotheses of `oom_result_sound_partial` are satisfiable together (the samples above; the
+    printer and the encoder read nothing off the tree). -/
+example : ∃ (d : Doc) (xtree : TCtx → XNode) (texts : TCtx → List ABuf) (s : Ledger),
+    d.wf ∧ (∀ c, ∀ t ∈ (xtree c).bufs, t.hdr ∈ c.owned) ∧ (∀ c, ∀ t ∈ texts c, t.hdr ∈ c.owned) ∧ s.WF := by
+  refine ⟨⟨[3, 1, 106, 0], OK, .none, .known, [], .elem (.token 5) [] false, []⟩, fun _ => .elt b!"a" none false false [] [],
+    fun _ => [], Ledger.start [], ?_, ?_, ?_, ?_⟩
+  · exact ⟨fun a ha => (by cases ha), ⟨trivial, fun a ha => (by cases ha)⟩, fun it hit => (by cases hit)⟩
+  · intro c t ht; simp [XNode.bufs, XNode.bufsL] at ht
+  · intro c t ht; cases ht
+  · intro i hi; cases hi
 
 /-! ## The property's statement for one function, as `single_failure_clean` -/
 
